@@ -26,7 +26,7 @@ def kf_frontmatter_with_sentinel(case) -> bool:
     return m.get("fm") is not None and bool(m.get("gv"))
 
 
-CLASSES = {"kf_frontmatter_with_sentinel": kf_frontmatter_with_sentinel}
+CLASSES = {}
 
 
 def matrix_chunk(items):
